@@ -85,13 +85,17 @@ ValidAt(c, fmt) ==
     [] fmt = "auto"   -> IF Cardinality(sv) >= Cardinality(pp) THEN [f |-> "semver", ts |-> sv] ELSE [f |-> "pep440", ts |-> pp]
 Cmp(f, a, b) == IF f = "semver" THEN SVG!SvCmp(SVG!Parse(a), SVG!Parse(b)) ELSE PPG!PepCmp(PPG!Greedy(a), PPG!Greedy(b))
 MaxTags(c, fmt) == LET va == ValidAt(c, fmt) IN { t \in va.ts : \A u \in va.ts : Cmp(va.f, u, t) <= 0 }
-\* nearest validly tagged ancestors-or-self of HEAD: no other validly tagged commit between it and HEAD
-Nearest(fmt) ==
-  LET A == Anc(HeadCommit)
+\* nearest validly tagged ancestors-or-self of a commit h (HEAD of the main work tree, or the commit a
+\* linked work tree is detached at): no other validly tagged commit between it and h
+NearestFrom(h, fmt) ==
+  LET A == Anc(h)
       T == { c \in A : ValidAt(c, fmt).ts # {} }
   IN { c \in T : ~\E d \in T : d # c /\ c \in Anc(d) }
-Distance(c) == Cardinality(Anc(HeadCommit) \ Anc(c))
+DistanceFrom(h, c) == Cardinality(Anc(h) \ Anc(c))
 \* every acceptable answer: [tag, c, distance]; empty = "no version tags"
-Expected(fmt) == UNION { { [tag |-> t, c |-> c, distance |-> Distance(c)] : t \in MaxTags(c, fmt) } : c \in Nearest(fmt) }
+ExpectedFrom(h, fmt) == UNION { { [tag |-> t, c |-> c, distance |-> DistanceFrom(h, c)] : t \in MaxTags(c, fmt) } : c \in NearestFrom(h, fmt) }
+Nearest(fmt) == NearestFrom(HeadCommit, fmt)
+Distance(c) == DistanceFrom(HeadCommit, c)
+Expected(fmt) == ExpectedFrom(HeadCommit, fmt)
 BranchReported == IF OnBranch THEN head.b ELSE ""
 =============================================================================
